@@ -18,10 +18,7 @@ func opbCons(r *rand.Rand, n, W int) gen.M {
 	w := make([]int, k)
 	sumPos, sumNeg := 0, 0
 	for i := range w {
-		w[i] = r.Intn(2*W+1) - W
-		if w[i] == 0 {
-			w[i] = 1
-		}
+		w[i] = r.Intn(2*W+1) - W // zero coefficients are legal OPB
 		if w[i] > 0 {
 			sumPos += w[i]
 		} else {
